@@ -79,7 +79,9 @@ func Alphabet(names []string, withInvalid bool) []Tok {
 }
 
 // SymbolicStream draws k tokens from the alphabet (one selector per token).
-func SymbolicStream(k int, alpha []Tok) []Tok {
+// first >= 0 pins the first token to that entry of the alphabet (the driver
+// splits the longest streams this way).
+func SymbolicStream(k int, alpha []Tok, first int) []Tok {
 	kinds := make([]int, len(alpha))
 	vals := make([]string, len(alpha))
 	for i, t := range alpha {
@@ -88,6 +90,9 @@ func SymbolicStream(k int, alpha []Tok) []Tok {
 	toks := make([]Tok, k)
 	for i := 0; i < k; i++ {
 		sel := verifrt.Int("t"+strconv.Itoa(i), 0, len(alpha)-1)
+		if i == 0 && first >= 0 {
+			verifrt.Assume(sel == first)
+		}
 		toks[i] = Tok{Kind: kinds[sel], Val: verifrt.ChoiceAt(sel, vals...)}
 	}
 	return toks
